@@ -1223,6 +1223,13 @@ func c15GenSchema(rng *rand.Rand, sel int) (text string, usesRefs bool, rootKind
 		if g.hash > 0 {
 			g.sb.WriteString("\n" + g.comment() + "\n")
 		}
+	case 7:
+		// a block comment behind the value: on its line or below it, closed on the last bytes, before blanks, or
+		// before a line break
+		if g.hash > 0 {
+			block := []string{"### c ###", "###\n c \" { // x\n # y\n###", "######", "### # ###"}[rng.IntN(4)]
+			g.sb.WriteString([]string{" ", "\n", "  \n\n", ""}[rng.IntN(4)] + block + []string{"", " ", "\n", "\n\n", " \t"}[rng.IntN(5)])
+		}
 	}
 	text = g.sb.String()
 	switch rng.IntN(7) {
@@ -1412,7 +1419,7 @@ func init() {
 		ID:                 "C15",
 		Run:                c15Run,
 		Replay:             c15Replay,
-		Rule:               "metamorphic, no predicted lengths: for every text S that Check() accepts (corpus literals that only lack registered types, code 1302, are used too) and whose AST has a root value: Len(S) <= len(S); P = S[:Len(S)] has the same verdict (error code) and the same json.Marshal(GetAST()); Len(P) == Len(S); and, when S does not end inside an unclosed ### block comment, Len(S+NL+T) == Len(S) for trailers T = first byte x rest. S: 76 hand-written texts (each without and with @a/@b/@c registered) (the TestSchema_Len cases cut at the foreign text, every root kind, separators inside strings), every accepted string literal of the repository's tests (also re-spelled with CRLF / CR and with trailing blanks), 20k (quick) / 500k (thorough) generated schemas (root kinds: object, array, bare scalar, scalar with inline annotation {rules} / note / {rules} - note, scalar with /* */ annotation possibly spanning lines, @a, @a | @b, annotated reference, nested containers with annotations and # / ### comments on inner lines; leading blank/comment lines, trailing blanks/newlines; keys and strings containing / // # */ /* quotes and escapes; LF, CRLF or CR). T: optional leading blanks / blank lines, then every first byte 0x00-0xFF except / # space tab CR LF, rest in {empty, words, }, ], comma, quote, ' | @b', ' */', blank lines + text, 1 KiB random bytes with structured islands}; NL = the newline convention S uses (all of LF, CRLF, CR when S has no newline). Seeds and corpus literals get the full product first byte x rest; generated schemas get every first byte (rest kind rotating) plus every rest kind with 3 random first bytes. distinct_nontrivial = distinct judged S plus distinct (S, NL) trailer batches (hashed).",
+		Rule:               "metamorphic, no predicted lengths: for every text S that Check() accepts (corpus literals that only lack registered types, code 1302, are used too) and whose AST has a root value: Len(S) <= len(S); P = S[:Len(S)] has the same verdict (error code) and the same json.Marshal(GetAST()); Len(P) == Len(S); and, when S does not end inside an unclosed ### block comment, Len(S+NL+T) == Len(S) for trailers T = first byte x rest. S: 76 hand-written texts (each without and with @a/@b/@c registered) (the TestSchema_Len cases cut at the foreign text, every root kind, separators inside strings), every accepted string literal of the repository's tests (also re-spelled with CRLF / CR and with trailing blanks), 20k (quick) / 500k (thorough) generated schemas (root kinds: object, array, bare scalar, scalar with inline annotation {rules} / note / {rules} - note, scalar with /* */ annotation possibly spanning lines, @a, @a | @b, annotated reference, nested containers with annotations and # / ### comments on inner lines; leading blank/comment lines, trailing blanks/newlines, a # or ### comment behind the value (closed on the last bytes, before blanks or before a line break); keys and strings containing / // # */ /* quotes and escapes; LF, CRLF or CR). T: optional leading blanks / blank lines, then every first byte 0x00-0xFF except / # space tab CR LF, rest in {empty, words, }, ], comma, quote, ' | @b', ' */', blank lines + text, 1 KiB random bytes with structured islands}; NL = the newline convention S uses (all of LF, CRLF, CR when S has no newline). Seeds and corpus literals get the full product first byte x rest; generated schemas get every first byte (rest kind rotating) plus every rest kind with 3 random first bytes. distinct_nontrivial = distinct judged S plus distinct (S, NL) trailer batches (hashed).",
 		MinNontrivialQuick: 15000, MinNontrivialThorough: 300000,
 		Assumptions: []string{
 			"'does not start with / or #' is read on the first non-blank byte of the trailer: trailers whose first non-blank byte is / or # are never generated (not judged); a quarter of the trailers start with blanks or blank lines before the first significant byte",
